@@ -189,6 +189,110 @@ def fam_wide(tier, seed, tag, nruns):
     return out
 
 
+def fam_growth(tier, seed, tag, nruns, conc=False, faults=False):
+    """metadata growth at far host offsets with small images: hook H4 puts the
+    allocator's free hint just before (a) a refblock boundary, (b) the last
+    entry of a refcount-table block, (c) the end of the refcount table (the
+    table has to be enlarged and relocated, the header switched), (d) far
+    behind it (growth that skips entries); and header L1 growth at L1-block
+    boundaries"""
+    rng = random.Random(seed * 9176 + zlib.crc32(tag.encode()) % 1000)
+    out = []
+    gl = [dict(cb=9, ro=6, bsb=9, vclusters=400, params={"l2": [9, 1024], "rb": [9, 1024]}),     # rbn 64, 64 rt entries / cluster
+          dict(cb=9, ro=5, bsb=9, vclusters=300, params={"l2": [9, 1024], "rb": [9, 1024]}),     # rbn 128
+          dict(cb=10, ro=6, bsb=9, vclusters=300, params={"l2": [9, 1536], "rb": [9, 1024]})]    # rbn 128, 128 rt entries, 2 slices per refblock
+    for i in range(nruns):
+        geo = dict(gl[i % len(gl)] if i % 4 != 3 else gl[0])
+        bpc = 1 << (geo["cb"] - geo["bsb"])
+        vc = geo["vclusters"]
+        rbn = ((1 << geo["cb"]) * 8) >> geo["ro"]
+        rte = (1 << geo["cb"]) // 8
+        mode = i % 4
+        # the hint is always the first cluster of a refblock that does not exist yet (what the allocator itself
+        # leaves behind when a refblock is used up): the boundary behind it is reached by filling that refblock
+        if mode == 0:
+            hint = rbn * rng.choice([2, 5, 17])
+        elif mode == 1:
+            hint = rbn * 62                                      # next: reftable entry 63 (last of a 512-byte block)
+        elif mode == 2:
+            hint = rbn * (rte - 1)                               # next: behind the end of the table
+        else:
+            hint = rbn * (rte + rng.choice([0, 1, 3]))           # already behind it
+        nfill = rng.randrange(4, 20)
+        images = [S.image_shaped(rng, geo, 1, frac=nfill / vc, kinds=("data", "zero"), shuffle=0)]
+        steps = []
+        order = list(range(vc))
+        rng.shuffle(order)
+        big = rbn // 16
+        nw = rng.randrange(24, 40)
+
+        def wr(c):
+            n = rng.choice([1, 2, big, big, big + 1])
+            gb = c * bpc + rng.randrange(bpc)
+            return {"op": "write", "gb": gb, "n": max(1, min(n * bpc, vc * bpc - gb))}
+
+        if conc:
+            # sequential fill up to a few clusters before the boundary, then small concurrent writers
+            k = 0
+            filled = 0
+            while filled < rbn - 12 and mode != 3:
+                steps.append({"op": "write", "gb": order[k] * bpc, "n": bpc})
+                # allocation is per write: guest clusters need not be adjacent to fill the refblock
+                filled += 1
+                k += 1
+                if k % 32 == 0:
+                    steps.append({"op": "flush"})
+            nw = k + rng.randrange(12, 24)
+            while k < nw:
+                grp = []
+                for t in range(rng.randrange(2, 4)):
+                    ops = [{"op": "write", "gb": order[(k + j) % vc] * bpc + rng.randrange(bpc), "n": 1}
+                           for j in range(rng.randrange(1, 4))]
+                    k += len(ops)
+                    if rng.random() < 0.3:
+                        ops.append({"op": "flush"})
+                    if rng.random() < 0.2:
+                        ops.append({"op": "discard", "gb": order[rng.randrange(k)] * bpc, "n": bpc})
+                    grp.append(ops)
+                for ops in grp:
+                    steps.append({"op": "par", "ops": ops})
+                steps.append({"op": "flush"})
+        else:
+            for k in range(nw):
+                steps.append(wr(order[k]))
+                r = rng.random()
+                if r < 0.12:
+                    steps.append({"op": "flush"})
+                elif r < 0.2:
+                    steps.append({"op": "discard", "gb": order[rng.randrange(k + 1)] * bpc, "n": bpc * rng.randrange(1, 3)})
+                elif r < 0.24:
+                    steps += [{"op": "flush"}, {"op": "reopen"}]
+        kw = {}
+        if conc:
+            kw["sched"] = {"policy": rng.choice(["random", "pct"]), "seed": rng.randrange(1 << 30)}
+        if faults:
+            # fill up to a few clusters before the boundary, then one run per fault position
+            # (every `faults`-th backend request) of the section that crosses it
+            pre = []
+            if mode != 3:
+                for k in range(rbn - 6):
+                    pre.append({"op": "write", "gb": order[k] * bpc, "n": bpc})
+                    if k % 40 == 39:
+                        pre.append({"op": "flush"})
+                pre.append({"op": "flush"})
+            sect = [{"op": "write", "gb": order[rbn + j] * bpc, "n": bpc * rng.choice([1, 1, 2])} for j in range(10)]
+            sect.insert(rng.randrange(3, 10), {"op": "flush"})
+            tail = [{"op": "flush"}, {"op": "recover", "retries": 4}, {"op": "sweep"}, {"op": "flush"}, {"op": "reopen"}, {"op": "sweep"}]
+            for k in range(0, 48, faults):
+                kk = k + rng.randrange(faults)
+                out.append(S.mk(f"{tag}-{mode}-{i}-f{kk}", geo, images,
+                                pre + [{"op": "fail_next", "nth": kk, "partial": kk % 3 == 2}] + sect + tail, alloc_hint=hint))
+            continue
+        steps += [{"op": "flush"}, {"op": "sweep"}, {"op": "reopen"}, {"op": "sweep"}, {"op": "check"}]
+        out.append(S.mk(f"{tag}-{mode}-{i}", geo, images, steps, alloc_hint=hint, **kw))
+    return out
+
+
 def fam_cowread(tier, seed, tag, nruns):
     """reads overlapping copy-on-write in time: partial writes over backing /
     compressed clusters with concurrent reads of the same and neighbouring clusters"""
@@ -860,15 +964,44 @@ def check_C12(chk):
                 steps += [{"op": "flush"}, {"op": "reopen"}]
         steps += [{"op": "sweep"}, {"op": "flush"}, {"op": "sweep"}, {"op": "reopen"}, {"op": "sweep"}]
         scens.append(S.mk(f"c12-{kind}-{i}", geo, images, steps))
+    # more active L1 entries: the header lists fewer entries than the virtual size needs, the writes land
+    # on the entries around the listed end and around the L1 table's block boundaries (64 entries per 512 bytes)
+    for i in range(6 if chk.tier == "quick" else 60):
+        geo = dict(cb=9, ro=4, bsb=9, vclusters=64 * rng.choice([66, 70, 130]), params={"l2": [9, 1024], "rb": [9, 1024]})
+        l2n, nl1 = 64, geo["vclusters"] // 64
+        listed = rng.choice([1, 2, 63, 64, 65, min(nl1 - 1, 127), min(nl1 - 1, 128)])
+        img = S.image_shaped(rng, geo, 1, frac=0.0, kinds=("data",), l1_entries=listed, shuffle=0)
+        # a few clusters below the listed end so that the image is not empty
+        img["desc"]["clusters"] = [{"g": rng.randrange(min(listed, nl1) * l2n), "kind": "data", "wid": 1} for _ in range(4)]
+        img["desc"]["clusters"] = list({c["g"]: c for c in img["desc"]["clusters"]}.values())
+        cand = sorted({x for x in [listed - 1, listed, listed + 1, 63, 64, 65, 127, 128, nl1 - 1] if 0 <= x < nl1})
+        steps, touched = [], []
+        for k in range(rng.randrange(3, 8)):
+            i1 = rng.choice(cand) if k else (listed if listed < nl1 else rng.choice(cand))
+            c = i1 * l2n + rng.choice([0, 1, l2n - 1])
+            steps.append({"op": "write", "gb": c, "n": rng.choice([1, 1, 2])})
+            touched.append(c)
+            if rng.random() < 0.5:
+                steps += [{"op": "flush"}, {"op": "fsync"}]
+            if rng.random() < 0.2:
+                steps += [{"op": "flush"}, {"op": "reopen"}]
+        rd = [{"op": "read", "gb": c, "n": 2} for c in touched]
+        steps += [{"op": "flush"}, {"op": "fsync"}] + rd + [{"op": "reopen"}] + rd
+        scens.append(S.mk(f"c12-l1-{i}", geo, [img], steps))
+    scens += fam_growth(chk.tier, chk.seed, "c12g", 8 if chk.tier == "quick" else 96)
     scens += fam_regress()
     res, st = Q.run_batch(scens, chk.wd, mode="crash", known=chk.known_tags(), par=14)
     chk.consume(res, st, props=("C12", "C01", "C02", "C03", "C04", "C05", "C07", "PANIC"))
     nontrivial_seq(chk, res)
     return chk.finish("model_checking",
                       "histories that cross refblock capacity (64-bit refcounts, 512-byte clusters: 64 clusters per refblock), use images whose header "
-                      "lists fewer L1 entries than the virtual size needs, and allocate across refblock-slice boundaries; C01-C05 invariants incl. crash "
-                      "branching are evaluated on them; writes must return Ok (Inv_C07b)",
-                      BASE_ASSUME + ["refcount-table growth/relocation (needs > 4096 host clusters with the smallest geometry) is covered only in the thorough tier"])
+                      "lists fewer L1 entries than the virtual size needs (writes at the listed end and at L1-block boundaries 63/64/127/128), allocate "
+                      "across refblock-slice boundaries, and - with the allocator's free hint put at the start of a far refblock through hook H4 - cross "
+                      "the last entry of a refcount-table block and the end of the refcount table (table enlarged, relocated, header switched; also growth "
+                      "that skips entries); C01-C05 invariants incl. crash branching at every fsync of the growth sequence are evaluated on them; writes "
+                      "must return Ok (Inv_C07b)",
+                      BASE_ASSUME + ["far host offsets are reached by setting the allocator's free hint to the first cluster of a refblock that does not "
+                                     "exist yet (a state the allocator itself produces when a refblock is used up), not by writing gigabytes"])
 
 
 def check_C17(chk):
@@ -901,6 +1034,34 @@ def check_C17(chk):
         # hole punching unsupported: must fall back to zero writes
         scens.append(S.mk(f"c17-{h}-nopunch", geo, images, list(pre) + list(ops) + [{"op": "sweep"}, {"op": "flush"}, {"op": "reopen"}, {"op": "sweep"}],
                           punch_unsupported=True))
+    scens += fam_growth(chk.tier, chk.seed, "c17g", 4 if chk.tier == "quick" else 24, faults=8 if chk.tier == "quick" else 2)
+    # (b) hole punching unsupported AND a fault at each request (the zero-write fallback itself can fail); after recovery the
+    # caches are dropped and the touched slices are used again before the final reopen
+    for h in range(2 if chk.tier == "quick" else 16):
+        geo = G[["G1", "G4", "G2"][h % 3]]
+        bpc = 1 << (geo["cb"] - geo["bsb"])
+        vc = geo["vclusters"]
+        images = [S.image_plain(geo, "build")]
+        cs = [rng.randrange(vc) for _ in range(3)]
+        ops = [{"op": "write", "gb": c * bpc + rng.randrange(bpc), "n": 1} for c in cs] + [{"op": "flush"}]
+        again = [{"op": "write", "gb": ((c + 1) % vc) * bpc, "n": 1} for c in cs]
+        tail = [{"op": "recover", "retries": 4}, {"op": "shrink"}] + again + [{"op": "flush"}, {"op": "sweep"}, {"op": "reopen"}, {"op": "sweep"}]
+        for k in range(20 if chk.tier == "quick" else 30):
+            scens.append(S.mk(f"c17-np{h}-f{k}", geo, images, [{"op": "fail_next", "nth": k, "partial": False}] + ops + tail,
+                              punch_unsupported=True))
+    # (c) L1 tables of several blocks: faults while a later L1 block and the slices below it are flushed
+    for h in range(2 if chk.tier == "quick" else 12):
+        geo = dict(cb=9, ro=4, bsb=9, vclusters=64 * rng.choice([66, 70, 130]), params={"l2": [9, 1024], "rb": [9, 1024]})
+        nl1 = geo["vclusters"] // 64
+        images = [S.image_plain(geo, "build")]
+        idx = [rng.choice([0, 1, 63]), rng.choice([64, 65, nl1 - 1]), rng.choice([64, 65, nl1 - 1, 127 % nl1])]
+        touched = [i1 * 64 + rng.randrange(64) for i1 in idx]
+        pre = [{"op": "write", "gb": touched[0], "n": 1}, {"op": "flush"}]
+        ops = [{"op": "write", "gb": c, "n": 1} for c in touched[1:]] + [{"op": "flush"}]
+        rd = [{"op": "read", "gb": c, "n": 1} for c in touched]
+        tail = [{"op": "recover", "retries": 4}] + rd + [{"op": "flush"}, {"op": "reopen"}] + rd
+        for k in range(16 if chk.tier == "quick" else 30):
+            scens.append(S.mk(f"c17-l1{h}-f{k}", geo, images, pre + [{"op": "fail_next", "nth": k, "partial": k % 3 == 2}] + ops + tail))
     res, st = Q.run_batch(scens, chk.wd, known=chk.known_tags(), par=14)
     chk.consume(res, st, props=("C17", "C07", "C01", "PANIC"))
     nf = sum(r["summary"].get("faults", 0) for r in res.values())
@@ -922,6 +1083,7 @@ def check_C07(chk):
     n = 200 if chk.tier == "quick" else 4000
     scens = fam_conc(chk.tier, chk.seed, "c07", n, groups=3, maxops=5)
     scens += fam_conc(chk.tier, chk.seed, "c07b", n // 4, backing=True, groups=2, maxops=4)
+    scens += fam_growth(chk.tier, chk.seed, "c07g", 12 if chk.tier == "quick" else 200, conc=True)
     scens += fam_regress()
     res, st = Q.run_batch(scens, chk.wd, known=chk.known_tags(), par=14)
     chk.consume(res, st, props=("C07", "PANIC"))
